@@ -285,7 +285,20 @@ func init() {
 			k.PFresh = 88
 			k.WCycleCloser = 3
 			k.PGroupParam, k.PGroupRes = 30, 30
+			faulty := rapid.IntRange(0, 99).Draw(t, "faultmode") < 20
+			if faulty {
+				// failing functions: only the Defer toggle is compared (the
+				// effects of failures depend on the order of execution)
+				k.NoFaults, k.PFault, k.PPanic, k.PErr, k.PRecover = false, 12, 60, 40, 60
+			}
 			c := GenCase(t, scale(k, thorough))
+			if faulty {
+				if c.Variant == nil {
+					c.Variant = &Variant{}
+				}
+				c.Variant.NoPerm, c.Variant.Defer = true, true
+				return c
+			}
 			// draw a permutation key per op; blocks are sorted by it
 			perm := make([]int, len(c.Ops))
 			for i := range perm {
@@ -478,9 +491,13 @@ func checkC16(c *Case, st *Stats) *Failure {
 		st.Count("excluded_zone_cases", 1)
 		return nil
 	}
-	tb := Run(c, RunOpts{Order: order})
-	if f := compareOrderRuns(c, ta, tb, fns, "permuted order", allAccepted, order); f != nil {
-		return f
+	if c.Variant == nil || !c.Variant.NoPerm {
+		tb := Run(c, RunOpts{Order: order})
+		if f := compareOrderRuns(c, ta, tb, fns, "permuted order", allAccepted, order); f != nil {
+			return f
+		}
+	} else {
+		l["defer-toggle-with-failing-functions"] = true
 	}
 	if toggle {
 		nd := !c.Cfg.Defer
